@@ -21,7 +21,7 @@ RULE = (
     "round(-log10(get_eps())) after every step, defaults 1e-10 / 10; for eps/1000 and eps/100: == both ways, equal "
     "hashes, mutual containment of defining points, intersection returns the coincident kind equal to the operand; "
     "for 4.5*eps (more than 4 eps) on a Point/Vector coordinate: !=; a probe repeated after the same eps was restored "
-    "gives identical answers; objects kept alive across configuration changes (keep / recheck rules) must behave "
+    "gives identical answers; objects kept alive across configuration changes (keep / recheck rules; each kept object also has twins translated by 1e-8 and 1e-9 created at the same time, which must equal and hash like it once eps/1000 covers that offset) must behave "
     "like freshly constructed identical objects under the current eps. non-trivial = probe under a non-default configuration; distinct = distinct (history, probe)."
 )
 ASSUMPTIONS = [
